@@ -74,7 +74,7 @@ func probeSuite(c Cfg) []Req {
 		)
 		if len(allowedL) > 1 {
 			hdrLists = append(hdrLists,
-				[]string{allowedL[0], strings.Join(allowedL[1:], ",")},    // split over field lines
+				[]string{allowedL[0], strings.Join(allowedL[1:], ",")},     // split over field lines
 				[]string{allowedL[1] + "," + allowedL[0]},                  // unsorted
 				[]string{allowedL[0] + ",," + allowedL[1]},                 // empty element
 				[]string{strings.ToUpper(allowedL[0]) + "," + allowedL[1]}, // upper case
